@@ -1,8 +1,9 @@
 #!/bin/bash
+R=${REPO:-/repo}   # REPO=<scratch worktree> lets several of these run side by side; the default is /repo itself
 # usage: run_seed.sh <patch.diff> <props...> : applies the patch to /repo, runs the checks, reverts.
 p=$1; shift
-git -C /repo apply "$p" 2>/dev/null || git -C /repo apply -C1 "$p" || { echo "APPLY FAILED $p"; exit 3; }
+git -C $R apply "$p" 2>/dev/null || git -C $R apply -C1 "$p" || { echo "APPLY FAILED $p"; exit 3; }
 for prop in "$@"; do
-  ./bin/tmverif -prop $prop -no-evidence 2>&1 | grep -E "^  (VIOLATION|UNDECIDED|FLOOR)|^C[0-9]+:|LOAD-FAILED" | cut -c1-260
+  ./bin/tmverif -repo $R -prop $prop -no-evidence 2>&1 | grep -E "^  (VIOLATION|UNDECIDED|FLOOR)|^C[0-9]+:|LOAD-FAILED" | cut -c1-260
 done
-git -C /repo checkout -- . 
+git -C $R checkout -- . 
